@@ -1,4 +1,5 @@
 // C16 reproducer: a var_opt_sketch that went through serialize -> deserialize while in estimation mode
+// STATUS: reproduced on the snapshot tree (70f9031); repaired in /repo by commit 47a49b5 "fix: var_opt_sketch deserialize restores the gap count m as 0" (exit 0 since then).
 // (n > k) cannot be updated any more: every update() throws std::logic_error, and n has already been incremented.
 // The same happens to a deserialized var_opt_union whose gadget is in estimation mode (update and get_result throw).
 // Cause: both var_opt_sketch::deserialize overloads construct the sketch with m_ = (r > 0 ? 1 : 0) instead of 0
